@@ -2,7 +2,7 @@ SPECIFICATION Spec
 CONSTANTS
  EopmLocalPerCall = TRUE  PickyAcceptsZero = FALSE  AutoFinishAll = FALSE
  MemDictLimbHi = 752
- ChunkSizes = {0, 1}  Profile = "quick"
+ ChunkSizes = {0, 1}  Profile = "quick"  Sweep = "small"
  Formats = {"alone"}
 INVARIANTS MeetsContract NeverUnspecified StopsAtFirstStream Bounded
 CHECK_DEADLOCK FALSE
